@@ -122,4 +122,10 @@ PROPS = {
         'assumptions': COMMON_ASSUMPTIONS + ["executor: the harness supplies a thread-per-task spawner and steps the two background tasks in every order its scheduler draws; other executors (single-threaded pool, multi-threaded pool) change only which OS thread polls a task between yield points, which the model does not distinguish"],
         'partial': "'any executor supplied as spawner' is runtime behaviour: one spawner (thread per task, block_on) is exercised, with every polling order of the two background tasks at yield-point granularity; 'satisfies every property above' holds because the theorems of C01-C18, C20 are proved for the one transition function that serves both flavours",
     },
+    'C02': {
+        'suites': [('caches', 400, 4000, ''), ('cachesa', 200, 2000, ''), ('cacheq', 150, 1500, ''), ('cachet', 150, 1500, ''), ('cachec', 100, 1000, '')],
+        'rule': CACHE_RULE % "Cache and AsyncCache" + "three client threads writing, removing, clearing and looking up the same 3-7 keys with every write carrying a unique value, parked at every yield point (between the store update and the buffer send, between policy.add and store.try_insert, before each victim, inside the sweep), evictions, expiry, clear and close racing; monitors: a lookup returned a value written under another key / a value nobody wrote, a lookup returned a value handed to a callback earlier, a value inserted before a completed clear() is retrievable after it, and in quiescent profiles (cacheq, cachet) the oracle of writes: a lookup returns exactly the last value written with its remaining TTL",
+        'assumptions': COMMON_ASSUMPTIONS + ["'never rolled back' is proved for collision-free runs (every conflict hash 0, as with TransparentKeyBuilder; with colliding keys see known finding D9); 'values belong to their key' is proved for every run, index = key"],
+        'partial': "'never a value written before the latest remove(k) that had taken effect' is proved in two halves — remove() takes the entry out in its first step, and a resident value is only ever replaced by a later client write to that key — plus the clear() theorem of C11; the exact-last-value clause at quiescence is decided by the oracle monitor on the implementation and the state-by-state correspondence, its refinement theorem is C04's",
+    },
 }
